@@ -174,12 +174,11 @@ def preverifyInner (c : Ctx Db Env Err Pre L1) : Except Err G × Ctx Db Env Err 
   let r := preverifyInnerW h c.env c.work
   (r.1, c.withWork r.2)
 
-/-- `pre_execution::load_accounts`: `set_spec_id(SPEC::SPEC_ID)`, warm coinbase from Shanghai, warm
-the history contract from Prague, `load_access_list()?` -/
+/-- `pre_execution::load_accounts`: `set_spec_id(SPEC::SPEC_ID)`, warm coinbase from Shanghai,
+`load_access_list()?` (the Prague pre-warming of `BLOCKHASH_STORAGE_ADDRESS` was removed by /repo eeb6165b) -/
 def loadAccountsW (env : Env) (w : Work Db Err L1) : Except Err Unit × Work Db Err L1 :=
   let js := setSpecId w.js (canon h.spec)
   let js := if canon h.spec ≥ SHANGHAI then preloadInsert js (h.coinbase env) else js
-  let js := if canon h.spec ≥ PRAGUE then preloadInsert js BLOCKHASH_STORAGE_ADDRESS else js
   h.loadAccessList env { w with js := js }
 
 /-- `EvmContext::set_precompiles` -/
